@@ -30,7 +30,7 @@ func runSelftest(cfg *checkCfg, runs int) int {
 		env := append(engineEnv(cfg), "GOMAXPROCS="+c.procs)
 		replayDir := filepath.Join(scratch(), fmt.Sprintf("selftest-replays-%d", ci))
 		cur := map[int]rec{}
-		o := &poolOpts{bin: bin, cfg: cfg, engine: cfg.Engine, seed: envInt("VERIF_SEED", 1), tier: "quick", from: 0, to: runs,
+		o := &poolOpts{bin: bin, cfg: cfg, engine: cfg.Engine, seed: envInt("VERIF_SEED", 1), tier: "quick", from: cfg.SelftestFrom, to: cfg.SelftestFrom + runs,
 			replayDir: replayDir, env: env, noShrink: true, workers: c.workers}
 		agg := runPoolRecording(o, func(l *wline) {
 			cs, _ := json.Marshal(l.Outcome.Counters)
